@@ -89,6 +89,12 @@ def twins():
     out["tsx-jsx"] = ({"a/mod.py": py, "a/mod.tsx": ts, "a/mod.rs": rs, "a/mod.jsx": js, cfg: t[cfg]}, {"a/mod.tsx": "a/mod.ts", "a/mod.jsx": "a/mod.js"})
     out["shebang"] = ({"a/mod": "#!/usr/bin/env python3\n" + py, "a/mod.ts": ts, "a/mod.rs": rs, "a/mod.js": js, cfg: t[cfg]}, {"a/mod": "a/mod.py"})
     out["shebang-canonical"] = ({"a/mod.py": "#!/usr/bin/env python3\n" + py, "a/mod.ts": ts, "a/mod.rs": rs, "a/mod.js": js, cfg: t[cfg]}, {})
+    # a file the linters exempt by NAME (calc_test.py): the exemption belongs to the name, the language to the extension in any letter case
+    for name, (files, mapping) in out.items():
+        tname = {"upper-ext": "a/calc_test.PY", "mixed-ext": "a/calc_test.Py"}.get(name, "a/calc_test.py")
+        files[tname] = py
+        if tname != "a/calc_test.py":
+            mapping[tname] = "a/calc_test.py"
     # the documented per-language sections (nesting / srp / dry: python, typescript, javascript, rust) belong to "analysed as <language>":
     # thresholds that differ from the global ones, every file twice so that the cross-file linter has something to count
     import yaml
